@@ -40,7 +40,8 @@ def per_atom(channels: list[dict], qubits: list, T: int, slm: tuple | None = Non
                 if q not in qubits:
                     continue
                 d = b.setdefault(q, {"amp": np.zeros(T), "det": np.zeros(T), "ncover": np.zeros(T, dtype=int),
-                                     "phase_one": np.full(T, np.nan)})
+                                     "phase_one": np.full(T, np.nan), "ndrive": np.zeros(T, dtype=int),
+                                     "phase_drive": np.zeros(T)})
                 ti, tf = s["ti"], s["tf"]
                 off = 0
                 if slm is not None and ch["basis"] == "XY" and q in slm[0]:
@@ -53,4 +54,7 @@ def per_atom(channels: list[dict], qubits: list, T: int, slm: tuple | None = Non
                 d["det"][ti:tf] += s["det"][off:] * w
                 d["phase_one"][ti:tf] = np.where(d["ncover"][ti:tf] == 0, s["phase"] if s["real"] else np.nan, np.nan)
                 d["ncover"][ti:tf] += 1
+                drv = np.asarray(s["amp"][off:]) != 0  # nanoseconds at which this slot really drives the atom
+                d["ndrive"][ti:tf] += drv
+                d["phase_drive"][ti:tf] += np.where(drv, s["phase"], 0.0)
     return out
